@@ -233,6 +233,15 @@ func checkNoEscalation(c *mon.Ctx, t *ref.VersionTraits, creators []string, cur,
 	}
 	for _, u := range keys(o.users, n.users) {
 		ov, nv := o.user(u), n.user(u)
+		if _, had := o.users[u]; had && u != sender && ov >= sl {
+			if _, has := n.users[u]; !has {
+				// the entry of a peer or superior is removed: even where users_default makes up for it today, the user
+				// has lost the protection an entry of their own gives (the default can be lowered by anybody at its level)
+				c.Count("changed|users")
+				fail("users:peer-or-superior-removed", "users["+u+"] (entry removed)", ov, nv)
+				continue
+			}
+		}
 		if ov == nv {
 			continue
 		}
